@@ -398,7 +398,8 @@ pub fn run(tier: Tier) -> i32 {
     // the whole thorough alphabet costs a few seconds: both tiers run it
     let quick = false;
     // thorough: more plaintext lengths, every body bit of the first 64 bytes, every pattern for the encrypted-s part
-    let thorough = !ctx.quick();
+    // (the deeper alphabet costs well under a minute: the quick tier runs it too)
+    let thorough = true;
     ctx.set_rule("case = (cipher x backend, read path in {handshake payload, stateful transport, stateless transport, Cipher::decrypt directly}, plaintext length in {4,16,17,64,1000}, alteration: every bit of the tag, every bit (stride 5 above 17 bytes) of the first 64 body bytes, wrong nonce, wrong ad, output buffer length in {pt, ct-1, ct, ct+1, 2*ct}); handshake messages with an encrypted static key before the payload (XX, IK, IX, XK, KX, X x 25519/P256 x payload {0,4,20,100}) altered in the payload body/tag only x 12 buffer sizes, where neither the payload nor the decrypted static key may appear; messages valid under the reserved nonce 2^64-1 (crafted with the reference AEAD), and genuine handshake messages read by a party that was given another static key; oracle: after Err the canary-filled output buffer contains no 8-byte (4 for short plaintexts) window of the rejected message's plaintext. non-trivial = the read was rejected");
     let mut cases: Vec<(CipherAlg, Backend, Path, usize, Alter, bool, usize)> = vec![];
     for (c, b) in cipher_backends() {
